@@ -117,4 +117,125 @@ theorem c11_reject_wrong_hash (c : PCell) (h h' : Bytes) (hacc : checkProof c h 
     have b := (c11_sound_shape c h' hc).2.1
     exact absurd (b.symm.trans a) hne
 
+/-! ## block header: the returned state hash -/
+
+/-- If `check_block_header_proof(root, h, True)` returns `sh` then `root.get_hash(0) = h`, `root[2]` is a Merkle
+update cell, `sh` is the level-0 hash of its second child AND the new-state hash stored in the update cell's own
+data (`data[33:65]`) — the only place the block hash commits to it.  (Before fix 67bd38d only the child's level-0
+hash was returned; a level-2 pruned branch could name a forged one.) -/
+theorem c11_header_state_sound (root : PCell) (h sh : Bytes) (hacc : checkBlockHeaderProofState root h = some sh) :
+    root.info.getHash 0 = some h ∧
+    ∃ su c, root.refs[2]? = some su ∧ su.refs[1]? = some c ∧ su.info.kind = kMerkleUpdate ∧
+      c.info.getHash 0 = some sh ∧ pySlice su.data 33 65 = sh := by
+  unfold checkBlockHeaderProofState at hacc
+  split at hacc
+  · rename_i hb
+    refine ⟨by simpa [checkBlockHeaderProof] using hb, ?_⟩
+    cases h2 : root.refs[2]? with
+    | none => simp [h2] at hacc
+    | some su =>
+      cases h21 : su.refs[1]? with
+      | none => simp [h2, h21] at hacc
+      | some c =>
+        cases hh : c.info.getHash 0 with
+        | none => simp [h2, h21, hh] at hacc
+        | some x =>
+          simp only [h2, h21, hh, Option.bind_eq_bind, Option.bind_some] at hacc
+          split at hacc
+          · cases hacc
+          · rename_i hc
+            cases hacc
+            simp only [Bool.or_eq_true, bne_iff_ne, ne_eq, not_or, Decidable.not_not] at hc
+            exact ⟨su, c, rfl, h21, hc.1, hh, hc.2⟩
+  · cases hacc
+
+/-! ## account proofs -/
+
+/-- SOUNDNESS of the account check (no hash assumption): if `check_account_proof` returns, there were exactly two
+roots, both pass `check_proof` (against the block root hash resp. the state hash `sh` that the header's Merkle
+update commits to), the state proof's child has level-0 hash `sh`, and the REPRESENTATION hash (`Cell.hash`) of the
+supplied account state equals the level-0 hash of the account cell located in the proved state. -/
+theorem c11_account_sound (locate : PCell → Bytes → Option PCell) (roots : List PCell) (blk addr : Bytes) (state : PCell)
+    (hacc : checkAccountProof locate roots blk addr state = true) :
+    ∃ p0 p1 hdr st acc sh, roots = [p0, p1] ∧ checkProof p0 blk = true ∧ p0.refs[0]? = some hdr ∧
+      checkBlockHeaderProofState hdr blk = some sh ∧ p1.refs[0]? = some st ∧ st.info.getHash 0 = some sh ∧
+      checkProof p1 sh = true ∧ locate st addr = some acc ∧ acc.info.getHash 0 = some state.info.hash := by
+  unfold checkAccountProof at hacc
+  split at hacc
+  · rename_i p0 p1
+    split at hacc
+    · cases hacc
+    rename_i h0
+    split at hacc
+    · cases hacc
+    rename_i hdr hhdr
+    split at hacc
+    · cases hacc
+    rename_i sh hsh
+    split at hacc
+    · cases hacc
+    rename_i st hst
+    split at hacc
+    · cases hacc
+    rename_i hs
+    split at hacc
+    · cases hacc
+    rename_i h1
+    split at hacc
+    · cases hacc
+    rename_i acc hl
+    simp only [Bool.not_eq_true, bne_iff_ne, ne_eq, Decidable.not_not, beq_iff_eq] at h0 h1 hs hacc
+    exact ⟨p0, p1, hdr, st, acc, sh, rfl, by simpa using h0, hhdr, hsh, hst, hs, by simpa using h1, hl, hacc⟩
+  · cases hacc
+
+/-- A claimed account state whose own hash is not the committed one is rejected. -/
+theorem c11_account_reject (locate : PCell → Bytes → Option PCell) (roots : List PCell) (blk addr : Bytes) (state : PCell)
+    (hne : ∀ st acc, locate st addr = some acc → acc.info.getHash 0 ≠ some state.info.hash) :
+    checkAccountProof locate roots blk addr state = false := by
+  cases hc : checkAccountProof locate roots blk addr state with
+  | false => rfl
+  | true =>
+    obtain ⟨_, _, _, st, acc, _, _, _, _, _, _, _, _, hl, hh⟩ := c11_account_sound locate roots blk addr state hc
+    exact absurd hh (hne st acc hl)
+
+/-- The F12 scenario: the supplied "state" is a spec-valid PRUNED-BRANCH cell (whatever hashes it carries, e.g. the
+committed one as its level-0 hash).  Its `Cell.hash` is `H` of its own representation, whose first byte has the
+exotic bit and a non-zero level mask.  If the account cell `acc` found in the proved state has as level-0 hash the
+hash of a representation `d1 :: rest` of a NON-pruned cell (`d1 = r + 8e`, r ≤ 4, level part 0) and `H` does not
+collide on these two representations, the check rejects. -/
+theorem c11_account_reject_pruned (H : Bytes → Bytes) (locate : PCell → Bytes → Option PCell) (roots : List PCell)
+    (blk addr : Bytes) (bits : Bits) (i : CellInfo)
+    (wf : NodeWF H .pruned bits []) (hc : construct H 1 bits [] = some i)
+    (r : Nat) (e : Bool) (rest : Bytes) (hr : r ≤ 4)
+    (hcommitted : ∀ st acc, locate st addr = some acc → acc.info.getHash 0 = some (H (Spec.d1 r e 0 :: rest)))
+    (nocoll : H (Spec.d1 r e 0 :: rest) =
+        H ([Spec.d1 0 true (Spec.nodeMask .pruned bits []), Spec.d2 bits.length] ++ Spec.dataBytes bits) →
+      Spec.d1 r e 0 :: rest = [Spec.d1 0 true (Spec.nodeMask .pruned bits []), Spec.d2 bits.length] ++ Spec.dataBytes bits) :
+    checkAccountProof locate roots blk addr (.mk i []) = false := by
+  apply c11_account_reject
+  intro st acc hl
+  rw [hcommitted st acc hl]
+  intro heq
+  have hh := construct_pruned_hash H bits wf i hc
+  simp only [PCell.info, Option.some.injEq] at heq
+  rw [hh] at heq
+  have := nocoll heq
+  simp only [List.cons_append, List.nil_append, List.cons.injEq] at this
+  obtain ⟨_, _, h3, _⟩ := wf.pruned rfl
+  have hd := this.1
+  unfold Spec.d1 at hd
+  cases e <;> simp at hd <;> omega
+
+/-- COMPLETENESS of the account check: if both roots pass `check_proof` (c11_complete gives this for every pruning of
+the block header and of the shard state), the header's Merkle update commits to the state hash, and the account
+cell located in the (pruned) state proof has as level-0 hash the representation hash of the supplied state — by
+pruning invariance (c02_prune_invariant) that holds whether the account cell is present in full or pruned — then
+`check_account_proof` returns. -/
+theorem c11_account_complete (locate : PCell → Bytes → Option PCell) (p0 p1 hdr st acc state : PCell) (blk addr sh : Bytes)
+    (h0 : checkProof p0 blk = true) (hhdr : p0.refs[0]? = some hdr) (hsh : checkBlockHeaderProofState hdr blk = some sh)
+    (hst : p1.refs[0]? = some st) (hs : st.info.getHash 0 = some sh) (h1 : checkProof p1 sh = true)
+    (hl : locate st addr = some acc) (hh : acc.info.getHash 0 = some state.info.hash) :
+    checkAccountProof locate [p0, p1] blk addr state = true := by
+  simp [checkAccountProof, h0, hhdr, hsh, hst, hs, h1, hl, hh]
+
 end TonVerif.Properties.C11
